@@ -44,7 +44,7 @@ impl Sha256 {
     #[verifier::external_body]
     pub fn finalize(self) -> (r: Sha256Out) ensures r.b@ == spec_sha256(self.st@) { unimplemented!() }
 }
-impl VfSliceable<u8> for Sha256Out { open spec fn sl_view(&self) -> Seq<u8> { self.b@ } }
+impl VfSliceable<u8> for Sha256Out { type Out = [u8]; open spec fn sl_view(&self) -> Seq<u8> { self.b@ } open spec fn cut_ok(&self, a: int, b: int) -> bool { true } }
 pub struct Utf8Error { pub c: u8 }
 #[verifier::external_body]
 pub fn vf_str_from_utf8(b: &[u8]) -> (r: Result<&str, Utf8Error>) ensures r matches Ok(s) ==> spec_utf8_text(b@) == Some(s@), spec_utf8_text(b@) is Some ==> r is Ok { unimplemented!() }
